@@ -370,9 +370,21 @@ func (c *balCollector) OnAccount(addr common.InternalAddress, acc state.DumpAcco
 	c.b.ByAddr[addr] = v
 }
 
+// BrokenStateError is returned by Snapshot when the state cannot be hashed (e.g. "cannot encode
+// negative *big.Int": an account balance went below zero).
+type BrokenStateError struct{ Msg string }
+
+func (e *BrokenStateError) Error() string { return e.Msg }
+
 // Snapshot walks the account trie (after IntermediateRoot) and returns every balance. It fails
 // if an account cannot be attributed to an address, so that a sum is never silently partial.
-func Snapshot(sdb *state.StateDB) (*Balances, error) {
+func Snapshot(sdb *state.StateDB) (bal *Balances, err error) {
+	defer func() {
+		// the account encoder panics on a negative balance; report it instead of crashing
+		if r := recover(); r != nil {
+			bal, err = nil, &BrokenStateError{Msg: fmt.Sprint(r)}
+		}
+	}()
 	sdb.IntermediateRoot(true)
 	b := &Balances{ByAddr: map[common.InternalAddress]*big.Int{}, Sum: new(big.Int)}
 	c := &balCollector{b: b}
